@@ -80,6 +80,24 @@ PROPS["C13"] = {
     "technique": "Lean 4 round-trip theorems for integer/boolean text, parametric in the width; differential tie to conv; implementation-only exhaustive/random round trips for stdlib-backed formats",
 }
 
+GENCHECK = "gencheck: code regenerated from /repo's working tree by the generator linked into the harness, compiled in a scratch module with a glue file derived from the generated sources (go/ast over oas_unimplemented_gen.go / oas_security_gen.go) and driven over a JSON line protocol (harness/internal/gc, harness/gcrt)"
+
+PROPS["C05"] = {
+    "lean_modules": ["Ogen.Props.C05"],
+    "suites": ["c05"],
+    "timeout": 3600,
+    "trusted_base": [
+        KERNEL, HARNESS, GENCHECK,
+        "statements in lean/Ogen/Props/C05.lean; spec vocabulary Syms/Fill/tb/FitsArgs/NoAdj/SegParams (Ogen/RouterBuildNoJunk_proof, RouterEndToEnd_proof, RouterNoSlash_proof)",
+        "model Tree.insert/buildFrom/edge/serve is hand-written from gen/route_tree.go, route_node.go, router.go and gen/_template/router.tmpl; tie = (a) trees built by the real gen.Router.Add dumped through Walk and compared node by node with the Lean insert on thousands of route sets incl. refused insertions, (b) FindPath/ServeHTTP of regenerated, compiled routers compared with edge/serve on every short path over each set's alphabet and on template instances, near misses; the template expansion text/template → Go is part of what (b) validates, not modelled",
+        "path prefix, escaped re-spellings and FindPath = ServeHTTP agreement are checked on the implementation (with an independent template-instance reference), not proved",
+    ],
+    "assumptions": ["no two parameters in a row (NoAdj; checkRoutePath refuses them)", "completeness is path-level: the instance reaches a node whose template it instantiates (a dispatch, or 405 when the method is undefined there)"],
+    "level_text": "full for the model except one carve-out: dispatch_sound, static_wins, complete (with the D5 restore), allow_exact, stored_inserted for the tree built from any route list in any order and any path; no_slash_partial needs SegParams, its negation is the decided witness k5 (known finding K5, pinned by the suite), empty arguments are K7. Model tied to gen.Router.Add (trees) and to regenerated compiled routers (matching) on every run.",
+    "level_note": "trusted: Lean kernel, statements/specs, hand-written model + ties, the gencheck pipeline, net/http. Known findings K5, K7.",
+    "technique": "Lean 4 invariant proofs over route insertion (noJunk, present, distinct heads) + soundness/completeness of the unrolled matcher; model=code by tree dumps and by differential runs against regenerated, compiled routers",
+}
+
 # properties not claimed, with the reason (kept current; see DESIGN.md §7)
 NOT_CLAIMED = {
     "C10": "not applicable: determinism/race-freedom of generation lives in Go map iteration order, goroutine scheduling and the memory model; no executable model separate from the runtime can express it (DESIGN.md §7)",
